@@ -19,7 +19,7 @@ def run(ctx):
         beh = mtblib.generate(ctx, MODE, [(1, 1), (2, 1), (2, 2), (3, 2)], 1, ("a", "b"), sample=1500)
         beh += mtblib.generate(ctx, MODE, [(2, 2), (2, 3), (3, 2)], 3, ("a", "b"), sample=1200, simulate=6000)
         share = 0.3
-    big_dims = ([(32, 2)] if MODE == "insertion" else [(31, 2)]) if ctx.quick else ([(32, 2), (32, 1), (31, 2), (20, 2), (16, 3)] if MODE == "insertion" else [(31, 2), (31, 1), (20, 2), (16, 3)])
+    big_dims = ([(32, 2)] if MODE == "insertion" else [(31, 2)]) if ctx.quick else ([(32, 2), (32, 1), (31, 2), (20, 2), (16, 2), (8, 2)] if MODE == "insertion" else [(31, 2), (31, 1), (20, 2), (16, 2), (8, 2)])
     beh += mtblib.generate_big(ctx, MODE, big_dims, sample=40 if ctx.quick else 400)
     n, acc = mtblib.replay(ctx, "C02", MODE, beh, share)
     mtblib.end_to_end(ctx, MODE, beh, 8 if ctx.quick else 60)
